@@ -64,6 +64,13 @@ enum BodyItem {
     WrongArity(Argv),
     NestedMulti,
     WatchInside(u16),
+    /// UNWATCH inside the body (queued like any command; must not touch the WATCH decision)
+    Unwatch,
+    /// DISCARD in the middle of the body: the transaction ends, what follows runs immediately
+    Discard,
+    /// EXEC in the middle of the body: what follows runs immediately, the final EXEC/DISCARD
+    /// is then "without MULTI"
+    Exec,
     /// commands the connection answers itself outside a transaction (PING is served by the
     /// shard path as well; ACL WHOAMI / HELLO / AUTH are connection-level)
     ConnLevel(Argv),
@@ -75,6 +82,9 @@ impl BodyItem {
             BodyItem::Cmd(a) | BodyItem::Unknown(a) | BodyItem::WrongArity(a) | BodyItem::ConnLevel(a) => a.clone(),
             BodyItem::NestedMulti => argv(&["MULTI"]),
             BodyItem::WatchInside(k) => vec![b("WATCH"), key_of(*k)],
+            BodyItem::Unwatch => argv(&["UNWATCH"]),
+            BodyItem::Discard => argv(&["DISCARD"]),
+            BodyItem::Exec => argv(&["EXEC"]),
         }
     }
 }
@@ -215,6 +225,9 @@ fn body_item(conn_level: bool) -> BoxedStrategy<BodyItem> {
         ),
         (2, Just(BodyItem::NestedMulti).boxed()),
         (2, any::<u16>().prop_map(BodyItem::WatchInside).boxed()),
+        (2, Just(BodyItem::Unwatch).boxed()),
+        (1, Just(BodyItem::Discard).boxed()),
+        (1, Just(BodyItem::Exec).boxed()),
         (
             2,
             prop_oneof![Just(vec![b("PING")]), Just(vec![b("ECHO"), b("hi")]), Just(vec![b("PING"), b("x")])]
@@ -530,15 +543,16 @@ struct TxObs {
 }
 
 /// Check one queue-time reply; update the observation.
-fn on_queue_reply(item: &BodyItem, r: &Reply, obs: &mut TxObs) -> Result<(), String> {
+fn on_queue_reply(item: &BodyItem, r: &Reply, obs: &mut TxObsMut<'_>) -> Result<(), String> {
+    let obs = &mut *obs.0;
     let a = item.argv();
     match item {
-        BodyItem::NestedMulti | BodyItem::WatchInside(_) => {
+        BodyItem::NestedMulti | BodyItem::WatchInside(_) | BodyItem::Discard | BodyItem::Exec => {
             if !r.is_error() {
                 return Err(format!("{} inside MULTI answered {} — expected an error reply", show_argv(&a), r.show()));
             }
         }
-        BodyItem::Cmd(_) => {
+        BodyItem::Cmd(_) | BodyItem::Unwatch => {
             // the grammar also produces option combinations the parser rejects (SET … NX XX):
             // those are queue-time errors; what the production parser accepts must be queued
             let parses = vcore::resp::parse_zc(&a).is_ok();
@@ -579,63 +593,40 @@ fn on_queue_reply(item: &BodyItem, r: &Reply, obs: &mut TxObs) -> Result<(), Str
 }
 
 // ---------------------------------------------------------------------------------------
-// tier 1: connection handlers
+// the transaction model shared by both tiers
 // ---------------------------------------------------------------------------------------
 
-struct ConnOutcome {
-    nontrivial: bool,
-    labels: Vec<&'static str>,
-    /// findings tolerated (checked with ctx by the caller, which owns ctx)
-    watch_get_case: bool,
+/// A's program: the generated watch steps, MULTI, the body, EXEC/DISCARD — flattened. Every
+/// transaction-control command may also occur inside the body.
+#[derive(Clone, Debug)]
+enum Step {
+    Watch(Vec<Vec<u8>>),
+    Unwatch,
+    Multi,
+    Discard,
+    Exec,
+    Other(BodyItem),
 }
 
-/// What the caller must decide about known findings (ctx is not Send; the async part only
-/// reports what it saw).
-enum Verdict {
-    Ok(ConnOutcome),
-    /// watched non-string key changed unnoticed (exact matcher satisfied); `rest` = the result
-    /// of checking the script as an *applied* transaction
-    WatchGet(String, Result<ConnOutcome, String>),
-    Fail(String),
-}
-
-async fn run_conn_script(sc: &Script) -> Verdict {
-    match run_conn_script_inner(sc).await {
-        Ok(v) => v,
-        Err(e) => Verdict::Fail(e),
-    }
-}
-
-async fn run_conn_script_inner(sc: &Script) -> Result<Verdict, String> {
-    let shards = sc.shards.max(1) as usize;
-    let state = ShardedActorState::with_shards(shards);
-    let mut a = Client::connect("A", &state);
-    let mut bc = Client::connect("B", &state);
-    let mut labels: Vec<&'static str> = Vec::new();
-    // every command that had an effect on the real server before EXEC, in order (for the twin)
-    let mut effects: Vec<Argv> = Vec::new();
-
-    if sc.seed_types {
-        for c in seed_commands() {
-            bc.call(&c).await?;
-            effects.push(c);
+impl Step {
+    fn argv(&self) -> Argv {
+        match self {
+            Step::Watch(keys) => {
+                let mut c = vec![b("WATCH")];
+                c.extend(keys.iter().cloned());
+                c
+            }
+            Step::Unwatch => argv(&["UNWATCH"]),
+            Step::Multi => argv(&["MULTI"]),
+            Step::Discard => argv(&["DISCARD"]),
+            Step::Exec => argv(&["EXEC"]),
+            Step::Other(i) => i.argv(),
         }
     }
-    for c in &sc.setup {
-        bc.call(c).await?;
-        effects.push(c.clone());
-    }
+}
 
-    // A's steps
-    #[derive(Clone)]
-    enum Step {
-        Watch(Vec<Vec<u8>>),
-        Unwatch,
-        Multi,
-        Body(usize),
-        End,
-    }
-    let mut steps: Vec<Step> = Vec::new();
+fn program(sc: &Script) -> (Vec<Step>, usize) {
+    let mut steps = Vec::new();
     for w in &sc.watches {
         match w {
             WatchStep::Watch(ks) => {
@@ -646,309 +637,459 @@ async fn run_conn_script_inner(sc: &Script) -> Result<Verdict, String> {
             WatchStep::Unwatch => steps.push(Step::Unwatch),
         }
     }
+    let multi_at = steps.len();
     steps.push(Step::Multi);
-    for i in 0..sc.body.len() {
-        steps.push(Step::Body(i));
+    for item in &sc.body {
+        steps.push(match item {
+            BodyItem::NestedMulti => Step::Multi,
+            BodyItem::WatchInside(k) => Step::Watch(vec![key_of(*k)]),
+            BodyItem::Unwatch => Step::Unwatch,
+            BodyItem::Discard => Step::Discard,
+            BodyItem::Exec => Step::Exec,
+            other => Step::Other(other.clone()),
+        });
     }
-    steps.push(Step::End);
-    // B's actions by position (stable order)
+    steps.push(if sc.exec { Step::Exec } else { Step::Discard });
+    (steps, multi_at)
+}
+
+/// What the harness knows about A's connection: exactly the state the property talks about.
+#[derive(Default)]
+struct Model {
+    in_multi: bool,
+    /// commands answered +QUEUED since MULTI
+    queued: Vec<Argv>,
+    /// a command was rejected at queue time since MULTI
+    flagged: bool,
+    /// (key, value at WATCH time) for every WATCH since the last EXEC/DISCARD/UNWATCH
+    watched: Vec<WatchRec>,
+    b_after_watch: bool,
+    first_watched: Option<Vec<u8>>,
+    labels: Vec<&'static str>,
+    nontrivial: bool,
+    /// message of a KF-C05-01 candidate (EXEC applied although only GET-invisible changes
+    /// happened to watched keys); the caller decides whether it is tolerated
+    watch_get: Option<String>,
+}
+
+impl Model {
+    fn label(&mut self, l: &'static str) {
+        if !self.labels.contains(&l) {
+            self.labels.push(l);
+        }
+    }
+    fn end_transaction(&mut self) {
+        let writes = self.queued.iter().filter(|c| is_write(c)).count();
+        if (self.queued.len() >= 2 && writes >= 1) || (!self.watched.is_empty() && self.b_after_watch) {
+            self.nontrivial = true;
+        }
+        self.in_multi = false;
+        self.queued.clear();
+        self.flagged = false;
+        self.watched.clear();
+        self.b_after_watch = false;
+    }
+}
+
+enum WatchExpect {
+    MustApply,
+    MustAbort { only_get_invisible: bool, detail: String },
+    /// a key was watched twice with different values in between and equals only one snapshot
+    Either,
+}
+
+/// WATCH expectation from full typed values. A key watched several times: it has certainly
+/// changed if it differs from all of its snapshots, certainly not if it equals all of them.
+fn watch_expectation(watched: &[WatchRec], now: &Dump) -> WatchExpect {
+    let mut keys: Vec<&Vec<u8>> = watched.iter().map(|w| &w.key).collect();
+    keys.sort();
+    keys.dedup();
+    let mut definitely = Vec::new();
+    let mut possibly = false;
+    for k in keys {
+        let snaps: Vec<&WatchRec> = watched.iter().filter(|w| &w.key == k).collect();
+        let differing = snaps.iter().filter(|w| w.at_watch.as_ref() != now.get(k)).count();
+        if differing == snaps.len() {
+            definitely.push(k.clone());
+        } else if differing > 0 {
+            possibly = true;
+        }
+    }
+    if !definitely.is_empty() {
+        let only_get_invisible = !possibly
+            && watched
+                .iter()
+                .filter(|w| w.at_watch.as_ref() != now.get(&w.key))
+                .all(|w| get_view(w.at_watch.as_ref()) == get_view(now.get(&w.key)));
+        let detail = watched
+            .iter()
+            .filter(|w| definitely.contains(&w.key))
+            .map(|w| {
+                format!(
+                    "    watched {:?}: at WATCH {} — at EXEC {}",
+                    vcore::show(&w.key),
+                    w.at_watch.as_ref().map(|d| format!("[{}] {}", d.ty, d.value.show())).unwrap_or_else(|| "(missing)".into()),
+                    now.get(&w.key).map(|d| format!("[{}] {}", d.ty, d.value.show())).unwrap_or_else(|| "(missing)".into())
+                )
+            })
+            .collect::<Vec<_>>()
+            .join("\n");
+        WatchExpect::MustAbort { only_get_invisible, detail }
+    } else if possibly {
+        WatchExpect::Either
+    } else {
+        WatchExpect::MustApply
+    }
+}
+
+/// Decide an EXEC reply inside MULTI. Ok(true) = the queue must have been applied.
+fn judge_exec(m: &mut Model, reply: &Reply, now: &Dump) -> Result<bool, String> {
+    let expect = watch_expectation(&m.watched, now);
+    if !m.watched.is_empty() {
+        m.label("with_watch");
+        if m.b_after_watch {
+            m.label("b_write_after_watch");
+        }
+        match &expect {
+            WatchExpect::MustAbort { .. } => m.label("watched_value_changed"),
+            WatchExpect::Either => m.label("ambiguous_double_watch"),
+            WatchExpect::MustApply => {
+                if m.b_after_watch {
+                    m.label("watched_value_same_after_b")
+                }
+            }
+        }
+        if m.watched.iter().any(|w| w.at_watch.as_ref().map(|d| d.ty != "string").unwrap_or(false)) {
+            m.label("watch_non_string");
+        }
+        if m.watched.iter().any(|w| w.at_watch.is_none()) {
+            m.label("watch_missing_key");
+        }
+    }
+    if m.flagged {
+        m.label("queue_time_error");
+        let may_nil = !matches!(expect, WatchExpect::MustApply);
+        if reply.error_code().as_deref() == Some("EXECABORT") || (may_nil && is_nil(reply)) {
+            return Ok(false);
+        }
+        return Err(format!(
+            "a command was rejected at queue time, EXEC must answer EXECABORT; it answered {}",
+            reply.show()
+        ));
+    }
+    match expect {
+        WatchExpect::MustAbort { only_get_invisible, detail } => {
+            if is_nil(reply) {
+                return Ok(false);
+            }
+            let msg = format!(
+                "the value of a watched key differs between WATCH and EXEC, EXEC must answer nil and apply nothing; it answered {}\n{}",
+                reply.show(),
+                detail
+            );
+            if only_get_invisible {
+                m.watch_get = Some(msg);
+                Ok(true)
+            } else {
+                Err(msg)
+            }
+        }
+        WatchExpect::Either => Ok(!is_nil(reply)),
+        WatchExpect::MustApply => {
+            if is_nil(reply) {
+                return Err(format!(
+                    "no watched key changed its value between WATCH and EXEC ({} watched), EXEC must apply; it answered {}",
+                    m.watched.len(),
+                    reply.show()
+                ));
+            }
+            Ok(true)
+        }
+    }
+}
+
+fn exec_array<'a>(m: &Model, reply: &'a Reply) -> Result<&'a Vec<Reply>, String> {
+    let got = match reply {
+        Reply::Array(v) => v,
+        other => {
+            return Err(format!(
+                "EXEC answered {} — expected an array with the {} results",
+                other.show(),
+                m.queued.len()
+            ))
+        }
+    };
+    if got.len() != m.queued.len() {
+        return Err(format!(
+            "EXEC returned {} results for {} queued commands: {}\n  queued: {}",
+            got.len(),
+            m.queued.len(),
+            reply.show(),
+            m.queued.iter().map(|c| show_argv(c)).collect::<Vec<_>>().join(" | ")
+        ));
+    }
+    Ok(got)
+}
+
+fn exec_elem_mismatch(m: &Model, i: usize, got: &Reply, expected: &Reply) -> String {
+    format!(
+        "EXEC result #{} for {} is {} but the same command run outside a transaction after the same prefix answers {}\n  queued: {}",
+        i,
+        show_argv(&m.queued[i]),
+        got.show(),
+        expected.show(),
+        m.queued.iter().map(|c| show_argv(c)).collect::<Vec<_>>().join(" | ")
+    )
+}
+
+// ---------------------------------------------------------------------------------------
+// tier 1: connection handlers, twin server kept in lock-step
+// ---------------------------------------------------------------------------------------
+
+struct ConnOutcome {
+    nontrivial: bool,
+    labels: Vec<&'static str>,
+    /// Some(message) = KF-C05-01 candidate (the caller owns ctx and decides)
+    watch_get: Option<String>,
+}
+
+struct Pair {
+    real: ShardedActorState,
+    twin: ShardedActorState,
+    a: Client,
+    b: Client,
+    ta: Client,
+    tb: Client,
+}
+
+impl Pair {
+    /// the keyspace of the server must equal the keyspace of the sequential twin
+    async fn in_sync(&self, after: &str, m: &Model) -> Result<Dump, String> {
+        let d = dump_state(&self.real).await;
+        let t = dump_state(&self.twin).await;
+        if d != t {
+            return Err(format!(
+                "after {}{}: the keyspace differs from the sequential run (left: server, right: twin that executes only what has taken effect)\n{}",
+                after,
+                if m.in_multi { " (inside MULTI: nothing may take effect before EXEC)" } else { "" },
+                diff_dumps(&d, &t)
+            ));
+        }
+        Ok(d)
+    }
+
+    /// a command of client B: takes effect at once on both servers
+    async fn b_call(&mut self, c: &Argv, m: &Model) -> Result<(), String> {
+        let r = self.b.call(c).await?;
+        if m.in_multi && is_queued(&r) {
+            return Err(format!("client B's {} was answered +QUEUED although only A is inside MULTI", show_argv(c)));
+        }
+        let t = self.tb.call(c).await?;
+        if normalise(c, &r) != normalise(c, &t) {
+            return Err(format!(
+                "client B's {} answered {} while A's transaction is pending; on the sequential twin it answers {}",
+                show_argv(c),
+                r.show(),
+                t.show()
+            ));
+        }
+        Ok(())
+    }
+
+    async fn step(&mut self, step: &Step, m: &mut Model) -> Result<(), String> {
+        let c = step.argv();
+        match step {
+            Step::Watch(keys) => {
+                let r = self.a.call(&c).await?;
+                if m.in_multi {
+                    if !r.is_error() {
+                        return Err(format!("{} inside MULTI answered {} — expected an error reply", show_argv(&c), r.show()));
+                    }
+                } else {
+                    if r != Reply::ok() {
+                        return Err(format!("{} answered {}", show_argv(&c), r.show()));
+                    }
+                    let d = dump_state(&self.real).await;
+                    for k in keys {
+                        if m.first_watched.is_none() {
+                            m.first_watched = Some(k.clone());
+                        }
+                        m.watched.push(WatchRec {
+                            key: k.clone(),
+                            at_watch: d.get(k).cloned(),
+                        });
+                    }
+                }
+            }
+            Step::Unwatch => {
+                let r = self.a.call(&c).await?;
+                if m.in_multi {
+                    m.label("unwatch_inside_multi");
+                    on_queue_reply(&BodyItem::Unwatch, &r, &mut TxObsMut(m))?;
+                } else {
+                    if r != Reply::ok() {
+                        return Err(format!("UNWATCH answered {}", r.show()));
+                    }
+                    m.watched.clear();
+                    m.b_after_watch = false;
+                }
+            }
+            Step::Multi => {
+                let r = self.a.call(&c).await?;
+                if m.in_multi {
+                    if !r.is_error() {
+                        return Err(format!("nested MULTI answered {} — expected an error reply", r.show()));
+                    }
+                } else {
+                    if r != Reply::ok() {
+                        return Err(format!("MULTI answered {}", r.show()));
+                    }
+                    m.in_multi = true;
+                    m.queued.clear();
+                    m.flagged = false;
+                }
+            }
+            Step::Discard => {
+                let r = self.a.call(&c).await?;
+                if m.in_multi {
+                    m.label("discard");
+                    if r != Reply::ok() {
+                        return Err(format!("DISCARD answered {}", r.show()));
+                    }
+                    m.end_transaction();
+                } else {
+                    m.label("discard_without_multi");
+                    if !r.is_error() {
+                        return Err(format!("DISCARD without MULTI answered {} — expected an error reply", r.show()));
+                    }
+                }
+            }
+            Step::Exec => {
+                if !m.in_multi {
+                    m.label("exec_without_multi");
+                    let r = self.a.call(&c).await?;
+                    if !r.is_error() {
+                        return Err(format!("EXEC without MULTI answered {} — expected an error reply", r.show()));
+                    }
+                } else {
+                    m.label("exec");
+                    let now = dump_state(&self.real).await;
+                    let r = self.a.call(&c).await?;
+                    if judge_exec(m, &r, &now)? {
+                        let got = exec_array(m, &r)?.clone();
+                        for (i, q) in m.queued.clone().iter().enumerate() {
+                            let e = normalise(q, &self.ta.call(q).await?);
+                            let g = normalise(q, &got[i]);
+                            if g != e {
+                                return Err(exec_elem_mismatch(m, i, &g, &e));
+                            }
+                        }
+                    }
+                    m.end_transaction();
+                }
+            }
+            Step::Other(item) => {
+                let r = self.a.call(&c).await?;
+                if m.in_multi {
+                    on_queue_reply(item, &r, &mut TxObsMut(m))?;
+                } else {
+                    // outside a transaction: executes at once, like on the twin
+                    m.label("immediate_command_after_transaction");
+                    let t = self.ta.call(&c).await?;
+                    if normalise(&c, &r) != normalise(&c, &t) {
+                        return Err(format!(
+                            "{} sent after the transaction ended answered {}; on the sequential twin it answers {}",
+                            show_argv(&c),
+                            r.show(),
+                            t.show()
+                        ));
+                    }
+                }
+            }
+        }
+        self.in_sync(&format!("A's {}", show_argv(&c)), m).await?;
+        Ok(())
+    }
+}
+
+/// adapter: on_queue_reply works on the queue part of the model
+struct TxObsMut<'a>(&'a mut Model);
+
+async fn run_conn_script(sc: &Script) -> Result<ConnOutcome, String> {
+    let shards = sc.shards.max(1) as usize;
+    let real = ShardedActorState::with_shards(shards);
+    let twin = ShardedActorState::with_shards(shards);
+    let mut p = Pair {
+        a: Client::connect("A", &real),
+        b: Client::connect("B", &real),
+        ta: Client::connect("twin-A", &twin),
+        tb: Client::connect("twin-B", &twin),
+        real,
+        twin,
+    };
+    let mut m = Model::default();
+    m.label(if shards > 1 { "shards:n" } else { "shards:1" });
+
+    if sc.seed_types {
+        for c in seed_commands() {
+            p.b_call(&c, &m).await?;
+        }
+    }
+    for c in &sc.setup {
+        p.b_call(c, &m).await?;
+    }
+    let (steps, _) = program(sc);
     let mut b_at: Vec<Vec<&BOp>> = vec![Vec::new(); steps.len()];
     for act in &sc.b {
         let j = (act.at as usize * steps.len()) >> 16;
         b_at[j].push(&act.op);
     }
-
-    let mut watched: Vec<WatchRec> = Vec::new();
-    let mut obs = TxObs {
-        queued: Vec::new(),
-        flagged: false,
-    };
-    let mut in_multi = false;
-    let mut b_after_watch = false;
-    let mut exec_reply: Option<Reply> = None;
-    let mut dump_before_end: Dump = Dump::new();
-
     for (j, step) in steps.iter().enumerate() {
         for op in &b_at[j] {
-            let d = dump_state(&state).await;
+            let d = dump_state(&p.real).await;
             for c in resolve_b(op, &d) {
-                let r = bc.call(&c).await?;
-                if in_multi && is_queued(&r) {
-                    return Err(format!("client B's {} was answered +QUEUED although only A is inside MULTI", show_argv(&c)));
-                }
-                effects.push(c);
+                p.b_call(&c, &m).await?;
             }
-            if !watched.is_empty() {
-                b_after_watch = true;
+            if !m.watched.is_empty() {
+                m.b_after_watch = true;
             }
+            p.in_sync("client B's write", &m).await?;
         }
-        match step {
-            Step::Watch(keys) => {
-                let mut c = vec![b("WATCH")];
-                c.extend(keys.iter().cloned());
-                let r = a.call(&c).await?;
-                if r != Reply::ok() {
-                    return Err(format!("{} answered {}", show_argv(&c), r.show()));
-                }
-                let d = dump_state(&state).await;
-                for k in keys {
-                    watched.push(WatchRec {
-                        key: k.clone(),
-                        at_watch: d.get(k).cloned(),
-                    });
-                }
-            }
-            Step::Unwatch => {
-                let r = a.call(&argv(&["UNWATCH"])).await?;
-                if r != Reply::ok() {
-                    return Err(format!("UNWATCH answered {}", r.show()));
-                }
-                watched.clear();
-                b_after_watch = false;
-            }
-            Step::Multi => {
-                let r = a.call(&argv(&["MULTI"])).await?;
-                if r != Reply::ok() {
-                    return Err(format!("MULTI answered {}", r.show()));
-                }
-                in_multi = true;
-            }
-            Step::Body(i) => {
-                let item = &sc.body[*i];
-                let before = dump_state(&state).await;
-                let r = a.call(&item.argv()).await?;
-                on_queue_reply(item, &r, &mut obs)?;
-                let after = dump_state(&state).await;
-                if before != after {
-                    return Err(format!(
-                        "{} sent inside MULTI (answered {}) changed the keyspace before EXEC:\n{}",
-                        show_argv(&item.argv()),
-                        r.show(),
-                        diff_dumps(&before, &after)
-                    ));
-                }
-            }
-            Step::End => {
-                dump_before_end = dump_state(&state).await;
-                let c = if sc.exec { argv(&["EXEC"]) } else { argv(&["DISCARD"]) };
-                exec_reply = Some(a.call(&c).await?);
-            }
-        }
+        p.step(step, &mut m).await?;
     }
-    let end_reply = exec_reply.expect("script has an end step");
-    let dump_after = dump_state(&state).await;
-
-    // ---- WATCH expectation from full typed values
-    let changed: Vec<&WatchRec> = watched
-        .iter()
-        .filter(|w| w.at_watch.as_ref() != dump_before_end.get(&w.key))
-        .collect();
-    let must_abort_watch = !changed.is_empty();
-    // exact matcher of KF-C05-01: every changed watched key looks the same through GET
-    let only_get_invisible = must_abort_watch
-        && changed
-            .iter()
-            .all(|w| get_view(w.at_watch.as_ref()) == get_view(dump_before_end.get(&w.key)));
-
-    if !watched.is_empty() {
-        labels.push("with_watch");
-        if b_after_watch {
-            labels.push("b_write_after_watch");
-        }
-        if must_abort_watch {
-            labels.push("watched_value_changed");
-        } else if b_after_watch {
-            labels.push("watched_value_same_after_b");
-        }
-        if watched.iter().any(|w| w.at_watch.as_ref().map(|d| d.ty != "string").unwrap_or(false)) {
-            labels.push("watch_non_string");
-        }
-        if watched.iter().any(|w| w.at_watch.is_none()) {
-            labels.push("watch_missing_key");
-        }
-    }
-    if obs.flagged {
-        labels.push("queue_time_error");
-    }
-    labels.push(if sc.exec { "exec" } else { "discard" });
-    labels.push(if shards > 1 { "shards:n" } else { "shards:1" });
-
-    let writes = obs.queued.iter().filter(|c| is_write(c)).count();
-    let nontrivial = (obs.queued.len() >= 2 && writes >= 1) || (!watched.is_empty() && b_after_watch);
-
-    let unchanged = |why: &str| -> Result<(), String> {
-        if dump_after != dump_before_end {
-            return Err(format!(
-                "{} but the keyspace changed:\n{}",
-                why,
-                diff_dumps(&dump_before_end, &dump_after)
-            ));
-        }
-        Ok(())
-    };
-
-    let finish = |a: Client, bc: Client| {
-        drop(a);
-        drop(bc);
-    };
-
-    let outcome = |watch_get_case: bool, labels: Vec<&'static str>| ConnOutcome {
-        nontrivial,
-        labels,
-        watch_get_case,
-    };
-
-    if !sc.exec {
-        if end_reply != Reply::ok() {
-            return Err(format!("DISCARD answered {}", end_reply.show()));
-        }
-        unchanged("DISCARD")?;
-    } else if obs.flagged {
-        // queue-time error => EXECABORT (a failed WATCH at the same time may answer nil)
-        let ok = end_reply.error_code().as_deref() == Some("EXECABORT") || (must_abort_watch && is_nil(&end_reply));
-        if !ok {
-            return Err(format!(
-                "a command was rejected at queue time, EXEC must answer EXECABORT; it answered {}",
-                end_reply.show()
-            ));
-        }
-        unchanged("EXEC after a queue-time error (EXECABORT)")?;
-    } else {
-        let applied_check = async {
-            // twin: same effects, then the queued commands outside a transaction
-            let twin = ShardedActorState::with_shards(shards);
-            let mut tb = Client::connect("twin-B", &twin);
-            for c in &effects {
-                tb.call(c).await?;
-            }
-            let mut ta = Client::connect("twin-A", &twin);
-            let mut expected: Vec<Reply> = Vec::new();
-            for c in &obs.queued {
-                expected.push(normalise(c, &ta.call(c).await?));
-            }
-            let twin_dump = dump_state(&twin).await;
-            let got = match &end_reply {
-                Reply::Array(v) => v,
-                other => {
-                    return Err(format!(
-                        "EXEC answered {} — expected an array with the {} results",
-                        other.show(),
-                        obs.queued.len()
-                    ))
-                }
-            };
-            if got.len() != obs.queued.len() {
-                return Err(format!(
-                    "EXEC returned {} results for {} queued commands: {}",
-                    got.len(),
-                    obs.queued.len(),
-                    end_reply.show()
-                ));
-            }
-            for (i, (g, e)) in got.iter().zip(expected.iter()).enumerate() {
-                let g = normalise(&obs.queued[i], g);
-                if g != *e {
-                    return Err(format!(
-                        "EXEC result #{} for {} is {} but the same command run outside a transaction after the same prefix answers {}\n  queued: {}",
-                        i,
-                        show_argv(&obs.queued[i]),
-                        g.show(),
-                        e.show(),
-                        obs.queued.iter().map(|c| show_argv(c)).collect::<Vec<_>>().join(" | ")
-                    ));
-                }
-            }
-            if dump_after != twin_dump {
-                return Err(format!(
-                    "keyspace after EXEC differs from running the body sequentially (left: after EXEC, right: sequential twin):\n{}",
-                    diff_dumps(&dump_after, &twin_dump)
-                ));
-            }
-            Ok::<(), String>(())
-        };
-        if must_abort_watch {
-            if is_nil(&end_reply) {
-                unchanged("EXEC answered nil (WATCH failed)")?;
-            } else {
-                let detail = changed
-                    .iter()
-                    .map(|w| {
-                        format!(
-                            "    watched {:?}: at WATCH {} — at EXEC {}",
-                            vcore::show(&w.key),
-                            w.at_watch.as_ref().map(|d| format!("[{}] {}", d.ty, d.value.show())).unwrap_or_else(|| "(missing)".into()),
-                            dump_before_end.get(&w.key).map(|d| format!("[{}] {}", d.ty, d.value.show())).unwrap_or_else(|| "(missing)".into())
-                        )
-                    })
-                    .collect::<Vec<_>>()
-                    .join("\n");
-                let msg = format!(
-                    "the value of a watched key differs between WATCH and EXEC, EXEC must answer nil and apply nothing; it answered {}\n{}",
-                    end_reply.show(),
-                    detail
-                );
-                if only_get_invisible {
-                    // KF-C05-01 candidate: check the rest as an applied transaction
-                    let rest = applied_check.await.map(|()| outcome(true, labels.clone()));
-                    finish(a, bc);
-                    let rest = rest.map_err(|e| format!("{}\n  and, taken as an applied transaction: {}", msg, e));
-                    return Ok(Verdict::WatchGet(msg, rest));
-                }
-                return Err(msg);
-            }
-        } else {
-            if is_nil(&end_reply) {
-                return Err(format!(
-                    "no watched key changed its value between WATCH and EXEC ({} watched), EXEC must apply; it answered {}",
-                    watched.len(),
-                    end_reply.show()
-                ));
-            }
-            applied_check.await?;
-        }
+    if m.in_multi {
+        return Err("harness: the program did not close its transaction".into());
     }
 
     // ---- tail: the watches are forgotten after EXEC / DISCARD / abort
-    if let Some(tk) = sc.tail {
-        if let Some(w) = watched.first() {
-            labels.push("tail_after_transaction");
-            let d = dump_state(&state).await;
-            let wk = (0..NKEYS).find(|i| vcore::gen::KEY_POOL[*i] == w.key.as_slice()).unwrap_or(0);
-            for c in resolve_b(&BOp::Change(key_idx(wk)), &d) {
-                bc.call(&c).await?;
-            }
-            let tail_key = key_of(tk);
-            let ty = dump_state(&state).await.get(&tail_key).map(|k| k.ty.clone());
-            let cmd = match ty.as_deref() {
-                None | Some("list") => vec![b("RPUSH"), tail_key.clone(), b("tail")],
-                _ => vec![b("EXISTS"), tail_key.clone()],
-            };
-            let before = dump_state(&state).await;
-            let r1 = a.call(&argv(&["MULTI"])).await?;
-            let r2 = a.call(&cmd).await?;
-            let r3 = a.call(&argv(&["EXEC"])).await?;
-            if r1 != Reply::ok() || !is_queued(&r2) {
-                return Err(format!("second transaction on the same connection: MULTI -> {}, {} -> {}", r1.show(), show_argv(&cmd), r2.show()));
-            }
-            match &r3 {
-                Reply::Array(v) if v.len() == 1 && !v[0].is_error() => {}
-                other => {
-                    return Err(format!(
-                        "after the first transaction ended (EXEC/DISCARD forget all watches) client B changed the previously watched key {:?}; a second MULTI / {} / EXEC without a new WATCH must apply, but EXEC answered {}",
-                        vcore::show(&w.key),
-                        show_argv(&cmd),
-                        other.show()
-                    ))
-                }
-            }
-            let after = dump_state(&state).await;
-            if cmd[0] == b("RPUSH") && before == after {
-                return Err("second transaction's RPUSH was acknowledged but not applied".into());
-            }
+    if let (Some(tk), Some(wk)) = (sc.tail, m.first_watched.clone()) {
+        m.label("tail_after_transaction");
+        let d = dump_state(&p.real).await;
+        let wi = (0..NKEYS).find(|i| vcore::gen::KEY_POOL[*i] == wk.as_slice()).unwrap_or(0);
+        for c in resolve_b(&BOp::Change(key_idx(wi)), &d) {
+            p.b_call(&c, &m).await?;
+        }
+        let tail_key = key_of(tk);
+        let ty = dump_state(&p.real).await.get(&tail_key).map(|k| k.ty.clone());
+        let cmd = match ty.as_deref() {
+            None | Some("list") => vec![b("RPUSH"), tail_key.clone(), b("tail")],
+            _ => vec![b("EXISTS"), tail_key.clone()],
+        };
+        for st in [Step::Multi, Step::Other(BodyItem::Cmd(cmd.clone())), Step::Exec] {
+            p.step(&st, &mut m).await.map_err(|e| {
+                format!(
+                    "second transaction on the same connection (after the first ended, client B changed the previously watched key {:?}; no new WATCH): {}",
+                    vcore::show(&wk),
+                    e
+                )
+            })?;
         }
     }
-    finish(a, bc);
-    Ok(Verdict::Ok(outcome(false, labels)))
+    Ok(ConnOutcome {
+        nontrivial: m.nontrivial,
+        labels: m.labels,
+        watch_get: m.watch_get,
+    })
 }
 
 fn has_conn_level(sc: &Script) -> bool {
@@ -967,28 +1108,21 @@ fn check_conn_script(sc: &Script, ctx: &mut CaseCtx<'_>) -> Result<(), String> {
         }
     }
     let _ = vcore::runner::take_last_panic();
-    let verdict = vcore::block_on(run_conn_script(sc));
-    let out = match verdict {
-        Verdict::Ok(o) => o,
-        Verdict::Fail(e) => return Err(e),
-        Verdict::WatchGet(msg, rest) => {
-            // exact matcher satisfied: every watched key whose value changed shows the same
-            // GET result at WATCH and at EXEC time (the handler snapshots with GET)
-            if ctx.tolerate(KF_WATCH_GET) {
-                rest?
-            } else {
-                return Err(msg);
-            }
+    let out = vcore::block_on(run_conn_script(sc))?;
+    if let Some(msg) = &out.watch_get {
+        // exact matcher satisfied: every watched key whose value changed shows the same GET
+        // result at WATCH and at EXEC time, and the script checked out as an applied one
+        if ctx.tolerate(KF_WATCH_GET) {
+            ctx.label("kf01_watch_get_resynced");
+        } else {
+            return Err(msg.clone());
         }
-    };
+    }
     if let Some(p) = vcore::runner::take_last_panic() {
         return Err(format!("a server task panicked during the script: {}", p));
     }
     for l in &out.labels {
         ctx.label(l);
-    }
-    if out.watch_get_case {
-        ctx.label("kf01_watch_get_resynced");
     }
     if out.nontrivial {
         ctx.nontrivial(&serde_json::to_string(sc).unwrap_or_default());
@@ -997,7 +1131,7 @@ fn check_conn_script(sc: &Script, ctx: &mut CaseCtx<'_>) -> Result<(), String> {
 }
 
 // ---------------------------------------------------------------------------------------
-// tier 2: executor-level MULTI/EXEC/WATCH
+// tier 2: executor-level MULTI/EXEC/WATCH, twin executor kept in lock-step
 // ---------------------------------------------------------------------------------------
 
 fn ex(e: &mut CommandExecutor, a: &Argv) -> Option<Reply> {
@@ -1009,164 +1143,181 @@ fn check_exec_script(sc: &Script, ctx: &mut CaseCtx<'_>) -> Result<(), String> {
     let extra: Vec<Vec<u8>> = (0..NKEYS).map(|i| vcore::gen::KEY_POOL[i].to_vec()).collect();
     let mut e = CommandExecutor::new();
     let mut twin = CommandExecutor::new();
-    let both = |e: &mut CommandExecutor, twin: &mut CommandExecutor, c: &Argv| {
+    let mut m = Model::default();
+    // a write that takes effect at once on both (setup, client B, immediate commands)
+    fn both(e: &mut CommandExecutor, twin: &mut CommandExecutor, c: &Argv, who: &str) -> Result<(), String> {
         let r = ex(e, c);
-        let _ = ex(twin, c);
-        r
-    };
+        let t = ex(twin, c);
+        match (r, t) {
+            (Some(r), Some(t)) if normalise(c, &r) != normalise(c, &t) => Err(format!(
+                "{} {} answered {}; on the sequential twin executor it answers {}",
+                who,
+                show_argv(c),
+                r.show(),
+                t.show()
+            )),
+            _ => Ok(()),
+        }
+    }
+    fn in_sync(e: &CommandExecutor, twin: &CommandExecutor, after: &str, m: &Model) -> Result<(), String> {
+        if e.get_data() != twin.get_data() {
+            return Err(format!(
+                "after {}{}: the executor's data differs from the sequential run (twin executor that executes only what has taken effect)",
+                after,
+                if m.in_multi { " (inside MULTI: nothing may take effect before EXEC)" } else { "" }
+            ));
+        }
+        Ok(())
+    }
     if sc.seed_types {
         for c in seed_commands() {
-            both(&mut e, &mut twin, &c);
+            both(&mut e, &mut twin, &c, "setup")?;
         }
     }
     for c in &sc.setup {
-        both(&mut e, &mut twin, c);
+        both(&mut e, &mut twin, c, "setup")?;
     }
-    // WATCH steps; B's writes are all placed between the last WATCH and MULTI (any command
-    // issued while the executor is in MULTI is queued, whoever sent it)
-    let mut watched: Vec<WatchRec> = Vec::new();
-    for w in &sc.watches {
-        match w {
-            WatchStep::Watch(ks) => {
-                let mut keys: Vec<Vec<u8>> = ks.iter().map(|k| key_of(*k)).collect();
-                keys.dedup();
-                let mut c = vec![b("WATCH")];
-                c.extend(keys.iter().cloned());
-                let r = ex(&mut e, &c);
-                if r != Some(Reply::ok()) {
-                    return Err(format!("{} answered {:?}", show_argv(&c), r.map(|x| x.show())));
-                }
-                let d = dump_executor(&mut e, &extra);
-                for k in keys {
-                    watched.push(WatchRec {
-                        at_watch: d.get(&k).cloned(),
-                        key: k,
-                    });
-                }
-            }
-            WatchStep::Unwatch => {
-                let r = ex(&mut e, &argv(&["UNWATCH"]));
-                if r != Some(Reply::ok()) {
-                    return Err(format!("UNWATCH answered {:?}", r.map(|x| x.show())));
-                }
-                watched.clear();
-            }
-        }
-    }
-    let mut b_after_watch = false;
+    let (steps, multi_at) = program(sc);
+    // whatever arrives while the executor is in MULTI is queued, whoever sent it: B's actions
+    // are placed before A's steps up to MULTI (between the WATCH steps and right before MULTI)
+    let mut b_at: Vec<Vec<&BOp>> = vec![Vec::new(); steps.len()];
     for act in &sc.b {
-        let d = dump_executor(&mut e, &extra);
-        for c in resolve_b(&act.op, &d) {
-            both(&mut e, &mut twin, &c);
+        let j = ((act.at as usize * steps.len()) >> 16).min(multi_at);
+        b_at[j].push(&act.op);
+    }
+    for (j, step) in steps.iter().enumerate() {
+        for op in &b_at[j] {
+            let d = dump_executor(&mut twin, &extra);
+            for c in resolve_b(op, &d) {
+                both(&mut e, &mut twin, &c, "client B's")?;
+            }
+            if !m.watched.is_empty() {
+                m.b_after_watch = true;
+            }
         }
-        b_after_watch = !watched.is_empty();
-    }
-    // the visible keyspace right before MULTI = at EXEC time, provided nothing changes while
-    // commands are queued (checked on the executor's public data map after every command:
-    // inside MULTI every command, also a read, would be queued)
-    let before_end = dump_executor(&mut e, &extra);
-    let r = ex(&mut e, &argv(&["MULTI"]));
-    if r != Some(Reply::ok()) {
-        return Err(format!("MULTI answered {:?}", r.map(|x| x.show())));
-    }
-    let data_at_multi = e.get_data().clone();
-    let mut obs = TxObs {
-        queued: Vec::new(),
-        flagged: false,
-    };
-    for item in &sc.body {
-        let a = item.argv();
-        let Some(r) = ex(&mut e, &a) else { continue };
-        match item {
-            BodyItem::NestedMulti | BodyItem::WatchInside(_) => {
-                if !r.is_error() {
-                    return Err(format!("{} inside MULTI answered {} — expected an error reply", show_argv(&a), r.show()));
+        let c = step.argv();
+        let Some(r) = ex(&mut e, &c) else { continue };
+        match step {
+            Step::Watch(keys) => {
+                if m.in_multi {
+                    if !r.is_error() {
+                        return Err(format!("{} inside MULTI answered {} — expected an error reply", show_argv(&c), r.show()));
+                    }
+                } else {
+                    if r != Reply::ok() {
+                        return Err(format!("{} answered {}", show_argv(&c), r.show()));
+                    }
+                    let d = dump_executor(&mut twin, &extra);
+                    for k in keys {
+                        m.watched.push(WatchRec {
+                            key: k.clone(),
+                            at_watch: d.get(k).cloned(),
+                        });
+                    }
                 }
             }
-            _ => {
-                if !is_queued(&r) {
-                    return Err(format!("{} inside MULTI answered {} — expected +QUEUED", show_argv(&a), r.show()));
+            Step::Unwatch => {
+                if m.in_multi {
+                    m.label("unwatch_inside_multi");
+                    on_queue_reply(&BodyItem::Unwatch, &r, &mut TxObsMut(&mut m))?;
+                } else {
+                    if r != Reply::ok() {
+                        return Err(format!("UNWATCH answered {}", r.show()));
+                    }
+                    m.watched.clear();
+                    m.b_after_watch = false;
                 }
-                obs.queued.push(a.clone());
+            }
+            Step::Multi => {
+                if m.in_multi {
+                    if !r.is_error() {
+                        return Err(format!("nested MULTI answered {} — expected an error reply", r.show()));
+                    }
+                } else {
+                    if r != Reply::ok() {
+                        return Err(format!("MULTI answered {}", r.show()));
+                    }
+                    m.in_multi = true;
+                    m.queued.clear();
+                    m.flagged = false;
+                }
+            }
+            Step::Discard => {
+                if m.in_multi {
+                    m.label("discard");
+                    if r != Reply::ok() {
+                        return Err(format!("DISCARD answered {}", r.show()));
+                    }
+                    m.end_transaction();
+                } else {
+                    m.label("discard_without_multi");
+                    if !r.is_error() {
+                        return Err(format!("DISCARD without MULTI answered {} — expected an error reply", r.show()));
+                    }
+                }
+            }
+            Step::Exec => {
+                if !m.in_multi {
+                    m.label("exec_without_multi");
+                    if !r.is_error() {
+                        return Err(format!("EXEC without MULTI answered {} — expected an error reply", r.show()));
+                    }
+                } else {
+                    m.label("exec");
+                    // nothing took effect since MULTI (checked after every step): the twin
+                    // shows the keyspace as it was when EXEC arrived
+                    let now = dump_executor(&mut twin, &extra);
+                    if judge_exec(&mut m, &r, &now)? {
+                        let got = exec_array(&m, &r)?.clone();
+                        for (i, q) in m.queued.clone().iter().enumerate() {
+                            let Some(t) = ex(&mut twin, q) else { continue };
+                            let (g, t) = (normalise(q, &got[i]), normalise(q, &t));
+                            if g != t {
+                                return Err(exec_elem_mismatch(&m, i, &g, &t));
+                            }
+                        }
+                    }
+                    m.end_transaction();
+                }
+            }
+            Step::Other(item) => {
+                if m.in_multi {
+                    // the executor queues whatever it is given (also unknown commands)
+                    if !is_queued(&r) {
+                        return Err(format!("{} inside MULTI answered {} — expected +QUEUED", show_argv(&c), r.show()));
+                    }
+                    let _ = item;
+                    m.queued.push(c.clone());
+                } else {
+                    m.label("immediate_command_after_transaction");
+                    if let Some(t) = ex(&mut twin, &c) {
+                        if normalise(&c, &r) != normalise(&c, &t) {
+                            return Err(format!(
+                                "{} sent after the transaction ended answered {}; on the sequential twin executor it answers {}",
+                                show_argv(&c),
+                                r.show(),
+                                t.show()
+                            ));
+                        }
+                    }
+                }
             }
         }
-        if *e.get_data() != data_at_multi {
-            return Err(format!("{} sent inside MULTI (answered {}) changed the executor's data before EXEC", show_argv(&a), r.show()));
-        }
-    }
-    let end = if sc.exec { argv(&["EXEC"]) } else { argv(&["DISCARD"]) };
-    let end_reply = ex(&mut e, &end).ok_or("EXEC did not parse")?;
-    let after = dump_executor(&mut e, &extra);
-    let changed: Vec<&WatchRec> = watched
-        .iter()
-        .filter(|w| w.at_watch.as_ref() != before_end.get(&w.key))
-        .collect();
-    ctx.label(if sc.exec { "exec" } else { "discard" });
-    if !watched.is_empty() {
-        ctx.label("with_watch");
-        if !changed.is_empty() {
-            ctx.label("watched_value_changed");
-        } else if b_after_watch {
-            ctx.label("watched_value_same_after_b");
-        }
-    }
-    if !sc.exec {
-        if end_reply != Reply::ok() {
-            return Err(format!("DISCARD answered {}", end_reply.show()));
-        }
-        if after != before_end {
-            return Err(format!("DISCARD changed the data:\n{}", diff_dumps(&before_end, &after)));
-        }
-    } else if !changed.is_empty() {
-        if !is_nil(&end_reply) {
-            return Err(format!(
-                "watched key {:?} changed between WATCH and EXEC; EXEC must answer nil, it answered {}",
-                vcore::show(&changed[0].key),
-                end_reply.show()
-            ));
-        }
-        if after != before_end {
-            return Err(format!("EXEC answered nil but the data changed:\n{}", diff_dumps(&before_end, &after)));
-        }
-    } else {
-        if is_nil(&end_reply) {
-            return Err(format!(
-                "no watched key changed its value ({} watched), EXEC must apply; it answered {}",
-                watched.len(),
-                end_reply.show()
-            ));
-        }
-        let got = end_reply
-            .as_array()
-            .ok_or_else(|| format!("EXEC answered {} — expected an array", end_reply.show()))?;
-        if got.len() != obs.queued.len() {
-            return Err(format!("EXEC returned {} results for {} queued commands", got.len(), obs.queued.len()));
-        }
-        for (i, c) in obs.queued.iter().enumerate() {
-            let expect = ex(&mut twin, c).map(|r| normalise(c, &r));
-            let g = normalise(c, &got[i]);
-            if Some(&g) != expect.as_ref() {
-                return Err(format!(
-                    "EXEC result #{} for {} is {} but the same command executed outside a transaction answers {:?}",
-                    i,
-                    show_argv(c),
-                    g.show(),
-                    expect.map(|x| x.show())
-                ));
-            }
-        }
-        let td = dump_executor(&mut twin, &extra);
-        if after != td {
-            return Err(format!("data after EXEC differs from the sequential run:\n{}", diff_dumps(&after, &td)));
-        }
+        in_sync(&e, &twin, &format!("A's {}", show_argv(&c)), &m)?;
     }
     // the transaction is over: a following command executes immediately
     let r = ex(&mut e, &argv(&["PING"]));
     if r != Some(Reply::Simple(b"PONG".to_vec())) {
         return Err(format!("PING after the transaction answered {:?}", r.map(|x| x.show())));
     }
-    let writes = obs.queued.iter().filter(|c| is_write(c)).count();
-    if (obs.queued.len() >= 2 && writes >= 1) || (!watched.is_empty() && b_after_watch) {
+    if m.watch_get.is_some() {
+        // the executor compares typed values: the GET-view finding does not exist here
+        return Err(m.watch_get.unwrap());
+    }
+    for l in &m.labels {
+        ctx.label(l);
+    }
+    if m.nontrivial {
         ctx.nontrivial(&serde_json::to_string(sc).unwrap_or_default());
     }
     Ok(())
